@@ -5,6 +5,8 @@ set -u
 id=$1; tier=${2:-quick}; shift; shift || true
 checks=${@:-$id}
 patch=/verif/seeded/$id/patch.diff
+# a change seeded on an earlier tree whose lines a later repo fix rewrote carries a rebased copy
+[ -f /verif/seeded/$id/patch_rebased.diff ] && patch=/verif/seeded/$id/patch_rebased.diff
 [ -f $patch ] || { echo "no $patch"; exit 2; }
 [ -z "$(git -C /repo status --porcelain)" ] || { echo "/repo not clean"; exit 2; }
 git -C /repo apply $patch || exit 2
